@@ -52,6 +52,7 @@ NATIVE REPLAY PROTOCOL (what a harness crate must provide so that FAILED can bec
     3 = an assumption was violated / values desynchronised    4 = unknown harness.
     See /verif/engines/kani/curves/src/vk.rs + src/bin/replay.rs for a reference implementation.
 
+`kani.native_tool(crate_rel_dir, bin, args)` builds and runs any other native binary of the crate (real-FFI witnesses).
 `kani.replay(payload)` re-executes a stored replay file (used by `check <ID> --replay`), returns 1 if it reproduces.
 """
 import os, re, json, time, shutil, subprocess, threading, queue
@@ -276,11 +277,12 @@ def _decide(run, crate, spec, ob, slot):
         return ob.set(core.INCONCLUSIVE, f"FAILED ({fdesc}) but no native replay exists for this harness", solver="cbmc+cadical", solver_s=vt)
     # obtain the concrete counterexample
     rc2, out2, dt2 = crate.kani(slot, spec["harness"], list(spec.get("flags", [])) + [
-        "-Z", "concrete-playback", "--concrete-playback=print"], max(tmo, 120) * 2, tag=".playback")
+        "-Z", "concrete-playback", "--concrete-playback=print"], max(tmo, 300) * 2, tag=".playback")
     ob.queries += 1
     tests = [t for t in parse_playback(out2) if t["check_kind"] != "cover"]
     if not tests:
-        return ob.set(core.INCONCLUSIVE, f"FAILED ({fdesc}) but Kani printed no concrete counterexample", solver="cbmc+cadical", solver_s=vt + dt2)
+        why = "the playback run timed out" if rc2 in (124, 137) else f"Kani printed no concrete counterexample (rc={rc2})"
+        return ob.set(core.INCONCLUSIVE, f"FAILED ({fdesc}) but {why}", solver="cbmc+cadical", solver_s=vt + dt2)
     last = None
     for t in tests[:4]:
         payload = dict(engine="K", crate=crate.rel_dir, harness=spec["harness"], concrete_vals=t["vals"],
@@ -361,6 +363,21 @@ def run_harnesses(run, crate_rel_dir, harness_specs, jobs=None, kani_flags=("-Z"
     for k in range(jobs):
         shutil.rmtree(crate.slot(k), ignore_errors=True)
     return obs
+
+
+def native_tool(crate_rel_dir, bin_name, args, profile="debug", name=None, timeout=120):
+    """Build (plain cargo) and run another native binary of a harness crate; returns (rc, output). Used for
+    hand-constructed real-FFI witnesses that accompany oracle-level findings."""
+    crate = _Crate(crate_rel_dir, name, (), bin_name, 12 * 1024 * 1024)
+    path, err = crate.native_bin(profile, bin_name)
+    if not path:
+        return None, "native build failed: " + err[-400:]
+    try:
+        p = subprocess.run([path] + list(args), stdout=subprocess.PIPE, stderr=subprocess.STDOUT, text=True,
+                           errors="replace", timeout=timeout, env=_env())
+        return p.returncode, p.stdout
+    except subprocess.TimeoutExpired:
+        return None, "timed out"
 
 
 def replay(payload):
